@@ -901,8 +901,8 @@ class SyncObj(object):
             newEntries = message.get('entries', [])
             serialized = message.get('serialized', None)
             self.__leaderCommitIndex = leaderCommitIndex = message['commit_index']
-            # Becomes True only when this message proved that our log matches the leader's
-            logVerified = False
+            # Last index up to which this message proved that our log matches the leader's
+            verifiedIdx = None
 
             # Regular append entries
             if 'prevLogIdx' in message:
@@ -932,21 +932,32 @@ class SyncObj(object):
                 if prevEntries[0][2] != prevLogTerm:
                     self.__sendNextNodeIdx(node, nextNodeIdx = prevLogIdx, success = False, reset=True)
                     return
-                if len(prevEntries) > 1:
+                # Entries that are already stored are kept: the log is cut only from the first position
+                # where a stored entry conflicts with a received one (same index, different term)
+                existingEntries = prevEntries[1:]
+                conflictPos = None
+                for pos in xrange(min(len(existingEntries), len(newEntries))):
+                    if existingEntries[pos][2] != newEntries[pos][2]:
+                        conflictPos = pos
+                        break
+                if conflictPos is not None:
                     # rollback cluster changes
                     if self.__conf.dynamicMembershipChange:
-                        for entry in reversed(prevEntries[1:]):
+                        for entry in reversed(existingEntries[conflictPos:]):
                             clusterChangeRequest = self.__parseChangeClusterRequest(entry[0])
                             if clusterChangeRequest is not None:
                                 self.__doChangeCluster(clusterChangeRequest, reverse=True)
 
-                    self.__deleteEntriesFrom(prevLogIdx + 1)
-                for entry in newEntries:
+                    self.__deleteEntriesFrom(prevLogIdx + 1 + conflictPos)
+                    entriesToAdd = newEntries[conflictPos:]
+                else:
+                    entriesToAdd = newEntries[len(existingEntries):]
+                for entry in entriesToAdd:
                     self.__raftLog.add(*entry)
 
                 # apply cluster changes
                 if self.__conf.dynamicMembershipChange:
-                    for entry in newEntries:
+                    for entry in entriesToAdd:
                         clusterChangeRequest = self.__parseChangeClusterRequest(entry[0])
                         if clusterChangeRequest is not None:
                             self.__doChangeCluster(clusterChangeRequest)
@@ -956,17 +967,17 @@ class SyncObj(object):
                     nextNodeIdx = newEntries[-1][1] + 1
 
                 self.__sendNextNodeIdx(node, nextNodeIdx=nextNodeIdx, success=True)
-                logVerified = True
+                verifiedIdx = nextNodeIdx - 1
 
             # Install snapshot
             elif serialized is not None:
                 if self.__serializer.setTransmissionData(serialized):
                     self.__loadDumpFile(clearJournal=True)
                     self.__sendNextNodeIdx(node, success=True)
-                    logVerified = True
+                    verifiedIdx = self.__getCurrentLogIndex()
 
-            if logVerified and leaderCommitIndex > self.__raftCommitIndex:
-                self.__raftCommitIndex = min(leaderCommitIndex, self.__getCurrentLogIndex())
+            if verifiedIdx is not None and min(leaderCommitIndex, verifiedIdx) > self.__raftCommitIndex:
+                self.__raftCommitIndex = min(leaderCommitIndex, verifiedIdx)
 
             self.__raftLog.setRaftCommitIndex(self.__raftCommitIndex)
 
